@@ -88,7 +88,7 @@ type GraphOpts struct {
 	PUnnamed    float64
 }
 
-var qualPool = []string{"g1", "g2", "g3"}
+var qualPool = []string{"g1", "g2", "g3", "G1"} // "G1" vs "g1": qualifiers are compared exactly
 
 // RandomGraph builds a random scenario. All by-name edges are satisfiable by construction.
 func RandomGraph(rng *rand.Rand, o GraphOpts) *world.Scenario {
@@ -217,6 +217,12 @@ func describeScenario(sc *world.Scenario) map[string]any {
 		if len(n.Fails) > 0 {
 			f = fmt.Sprintf(" fails=%v", n.Fails)
 		}
+		if len(n.FailOnce) > 0 {
+			f += fmt.Sprintf(" fail_once=%v", n.FailOnce)
+		}
+		if len(n.Lookups) > 0 {
+			f += fmt.Sprintf(" init_lookups=%v", n.Lookups)
+		}
 		nodes = append(nodes, fmt.Sprintf("#%d %s name=%q%s%s {%s}", i, world.Palette[n.Type].TypeName, n.DisplayName(), q, f, strings.Join(tags, "; ")))
 	}
 	return map[string]any{"nodes": nodes, "reg_order": sc.RegOrder, "order": sc.Order}
@@ -258,4 +264,37 @@ func contains(xs []string, x string) bool {
 		}
 	}
 	return false
+}
+
+// abnormal: the start neither returned a value nor an error.
+func abnormal(outcome string) bool {
+	return outcome == "panic" || outcome == "diverged" || outcome == "stalled"
+}
+
+// AddInitLookups gives some nodes that have an initialization callback a service-locator style lookup
+// of another component (preferably one that wires them) from inside that callback.
+func AddInitLookups(rng *rand.Rand, sc *world.Scenario, p float64) int {
+	adj := sc.NamedAdj()
+	n := 0
+	for i := range sc.Nodes {
+		ti := world.Palette[sc.Nodes[i].Type]
+		if !(ti.Init || ti.Aps) || rng.Float64() >= p {
+			continue
+		}
+		var holders []int
+		for h := range adj {
+			for _, t := range adj[h] {
+				if t == i && h != i {
+					holders = append(holders, h)
+				}
+			}
+		}
+		target := rng.Intn(len(sc.Nodes))
+		if len(holders) > 0 && rng.Intn(4) > 0 {
+			target = holders[rng.Intn(len(holders))]
+		}
+		sc.Nodes[i].Lookups = append(sc.Nodes[i].Lookups, sc.Nodes[target].DisplayName())
+		n++
+	}
+	return n
 }
